@@ -1,6 +1,6 @@
 (* C17 - results are independent of buffer provenance; arguments are never modified. *)
 From Coq Require Import List ZArith Bool Arith.
-From Pico Require Import Base.Res Base.Mach Wire.Wire Schema.Types Schema.Scalar Ref.Ref Schema.ScalarProofs Enc.Enc Enc.EncProofs Enc.CBuf Schema.Gen Schema.Interp Schema.EncSpec Schema.EncProgProofs.
+From Pico Require Import Base.Res Base.Mach Wire.Wire Schema.Types Schema.Scalar Ref.Ref Schema.ScalarProofs Enc.Enc Enc.EncProofs Enc.CBuf Schema.Gen Schema.Interp Schema.EncSpec Schema.EncProgProofs Schema.Calls Enc.CBufProg.
 Import ListNotations.
 Open Scope nat_scope.
 
@@ -41,12 +41,50 @@ Proof. exact enc_append_only. Qed.
    middle of the length patching. Argument immutability is true of the model by construction
    (values are immutable) and validated by before/after snapshots on every correspondence case. *)
 
+(* PROGRAMS of Encoder calls on a CONCRETE buffer (backing array with arbitrary stale content, any length and capacity, any
+   growth policy `extra` of append): typed writers, packed lists behind a patched length, RepeatedEnum, UnrecognizedFields and
+   Message / AlwaysMessage / PresentMessage / AlwaysAnyBytes nested to any depth (reserve two bytes, call back, then patch,
+   shift by memmove or roll back). The visible bytes of the result are the visible bytes of the start followed by the
+   reference encoding: no stale byte is ever exposed, nothing depends on where the buffer came from. *)
+Theorem C17_programs_on_any_buffer : forall extra fuel cs b, wf b -> forallb (call_ok fuel) cs = true ->
+  exists b', run_calls_c extra fuel cs b = Ok b' /\ view b' = view b ++ flat_map (spec_call fuel) cs /\ wf b'.
+Proof. exact run_calls_c_spec. Qed.
+
+(* ... and the concrete run is, step for step, the list-level run the other theorems speak about *)
+Theorem C17_concrete_refines_abstract : forall extra fuel cs b, wf b ->
+  match run_calls fuel cs (view b) with
+  | Ok v => exists b', run_calls_c extra fuel cs b = Ok b' /\ view b' = v /\ wf b'
+  | Panic => True
+  end.
+Proof. intros extra fuel cs b Hw. exact (run_calls_refines extra fuel cs b Hw). Qed.
+
+(* MarshalBuffer / NewEncoderBuffer cut the buffer to length 0 first: two buffers of any provenance give the same bytes *)
+Theorem C17_encode_into_any_buffer : forall extra fuel cs b1 b2, wf b1 -> wf b2 -> forallb (call_ok fuel) cs = true ->
+  exists r1 r2, run_calls_c extra fuel cs (reset_c b1) = Ok r1 /\ run_calls_c extra fuel cs (reset_c b2) = Ok r2 /\
+                view r1 = view r2 /\ view r1 = flat_map (spec_call fuel) cs.
+Proof. exact encode_into_any_buffer. Qed.
+
 Example C17_nonvacuous : view (append_c (fun _ _ => [9; 9]%Z) {| arr := [1; 2; 7; 7]%Z; len := 2 |} [5; 6; 8]%Z) = [1; 2; 5; 6; 8]%Z /\
   view (append_c (fun _ _ => []) {| arr := [1; 2; 7; 7]%Z; len := 2 |} [5]%Z) = [1; 2; 5]%Z.
 Proof. split; vm_compute; reflexivity. Qed.
+
+(* a nested message holding a packed list, into a dirty buffer with one spare byte, then into a fresh one *)
+Local Open Scope Z_scope.
+Definition c17_prog : list ecall := [CMessage 3 [CScalar KInt32 false true 1 [VInt 1; VInt 300]; CScalar KString false false 2 [VBytes [104; 105]]] true; CMessage 4 [CUnrec [8; 1]] false].
+Example C17_program_nonvacuous :
+  forallb (call_ok 4%nat) c17_prog = true /\
+  (match run_calls_c (fun _ _ => [170; 170; 170]) 4%nat c17_prog (reset_c {| arr := [255; 254; 253]; len := 2%nat |}) with Ok r => view r | Panic => [] end) =
+    [26; 9; 10; 3; 1; 172; 2; 18; 2; 104; 105]%Z /\
+  (match run_calls_c (fun _ _ => []) 4%nat c17_prog {| arr := []; len := 0%nat |} with Ok r => view r | Panic => [] end) =
+    [26; 9; 10; 3; 1; 172; 2; 18; 2; 104; 105]%Z.
+Proof. repeat split; vm_compute; reflexivity. Qed.
+Local Close Scope Z_scope.
 
 Print Assumptions C17_encode_appends_only.
 Print Assumptions C17_append.
 Print Assumptions C17_reslice.
 Print Assumptions C17_copy.
 Print Assumptions C17_put.
+Print Assumptions C17_programs_on_any_buffer.
+Print Assumptions C17_concrete_refines_abstract.
+Print Assumptions C17_encode_into_any_buffer.
